@@ -284,6 +284,12 @@ def main():
             o2 = opts + [(b"message_format", ALL_DS), (b"filter_chain", b"exclude_spawns_of:zz;only_uid:0")]
             fixed.append({"cfg": {"kind": kind, "ini": gen.render_ini(o2), "opts": o2}, "feats": ["all-data-sources"], "kind": "e",
                           "argv": [b"a", b"b"], "envp": [b"X=1"], "n": 300 if ctx.quick else 1100, "stdio": "pipe", "long": True})
+    # records larger than one datagram can be (socket-type outputs with a listening receiver, both limits raised to the maximum): the
+    # send is refused with EMSGSIZE -- whatever the output does about that, it keeps nothing
+    for oval in ((b"socket:@OUT@/sock", b"devlog") if not ctx.quick else (b"socket:@OUT@/sock",)):
+        o3 = [(b"output", oval), (b"message_format", b"%{cmdline}"), (b"datasource_message_max_length", b"1048575"), (b"log_message_max_length", b"1048575")]
+        fixed.append({"cfg": {"kind": "socket", "ini": gen.render_ini(o3), "opts": o3}, "feats": ["record-larger-than-a-datagram"], "kind": "e",
+                      "argv": [b"big", b"D" * 278000], "envp": [b"X=1"], "n": 8, "stdio": "pipe", "long": False})
     # the account database and the hosts file are generated inputs here as well (C12 builds them): /etc/hosts has a fully qualified
     # entry for this machine, so that %{domain} takes its "found" path; long passwd / group lines make the lookups retry
     import C12
